@@ -39,6 +39,11 @@ class References:
         "A group is not allowed to refer to itself")
 
   def _line_for_ref_symbol(self, ref):
+    if ref == self.get("name"):
+      raise gfapy.RuntimeError(
+        "Line: {}\n".format(self)+
+        "Item is the line itself\n"+
+        "A group is not allowed to refer to itself")
     line = self._gfa.line(ref)
     if line is None:
       if self._gfa._segments_first_order:
